@@ -160,13 +160,30 @@ def _main_check(ctx: Ctx) -> None:
             ctx.check(isinstance(v, ast.Attribute) and v.attr == f and isinstance(v.value, ast.Name) and v.value.id == m, "ROUTE",
                       f"{FN}: {T} copies `{f}`", function=FN, construct=f"loaded {T} event does not copy `{f}` from the file message",
                       message=short(v), file=fi.file, node=c)
+    # "the track belongs to a group": `any(i in indices for indices in groups)`, or a local of the track loop defined as exactly that
+    idxv0 = track_loop.target.elts[0].id if isinstance(track_loop.target, ast.Tuple) else None
+
+    def _member_call(t):
+        return isinstance(t, ast.Call) and isinstance(t.func, ast.Name) and t.func.id == "any" and groups in src(t) and idxv0 is not None \
+            and any(isinstance(c_, ast.Compare) and isinstance(c_.ops[0], ast.In) and src(c_.left) == idxv0 for c_ in ast.walk(t))
+    member_locals = set()
+    for s_ in track_loop.body:
+        if isinstance(s_, ast.Assign) and len(s_.targets) == 1 and isinstance(s_.targets[0], ast.Name) and _member_call(s_.value):
+            nm_ = s_.targets[0].id
+            if sum(1 for x in ast.walk(track_loop) if isinstance(x, ast.Name) and x.id == nm_ and isinstance(x.ctx, ast.Store)) == 1:
+                member_locals.add(nm_)
+
+    def is_member_test(t):
+        return _member_call(t) or (isinstance(t, ast.Name) and t.id in member_locals)
+
     # notes only under group membership
     for c in ctors:
         T = enum_member(kwarg(c, "message_type"), "MessageType")
         if T in ("NOTE_ON", "NOTE_OFF"):
             g = next((a for a in ancestors(c) if isinstance(a, ast.If)), None)
-            ok = g is not None and "any(" in src(g.test) and groups in src(g.test) and f"MessageType.{T}" in src(g.test) and isinstance(g.test, ast.BoolOp) \
-                and isinstance(g.test.op, ast.And)
+            ok = g is not None and isinstance(g.test, ast.BoolOp) and isinstance(g.test.op, ast.And) and len(g.test.values) == 2 \
+                and any(is_member_test(v) for v in g.test.values) \
+                and any(isinstance(v, ast.Compare) and enum_member(v.comparators[0], "MessageType") == T and isinstance(v.ops[0], ast.Eq) for v in g.test.values)
             from ..astutil import extra_conditions
             more = extra_conditions(c, g.test if g is not None else None, allow=lambda t, holds: not holds and "message_type" in src(t), stop=track_loop)
             ok = ok and not more
@@ -174,8 +191,9 @@ def _main_check(ctx: Ctx) -> None:
                       construct=f"{T} taken from tracks outside every group", message=short(getattr(g, "test", None), 90), file=fi.file, node=c)
     # skip rule
     skip = next((s for s in track_loop.body if isinstance(s, ast.If) and any(isinstance(x, ast.Continue) for x in s.body)), None)
-    ok = skip is not None and groups in src(skip.test) and metas in src(skip.test) and isinstance(skip.test, ast.BoolOp) and isinstance(skip.test.op, ast.And) \
-        and all(isinstance(v, ast.UnaryOp) or (isinstance(v, ast.Compare) and isinstance(v.ops[0], ast.NotIn)) for v in skip.test.values)
+    ok = skip is not None and isinstance(skip.test, ast.BoolOp) and isinstance(skip.test.op, ast.And) and len(skip.test.values) == 2 \
+        and any(isinstance(v, ast.UnaryOp) and isinstance(v.op, ast.Not) and is_member_test(v.operand) for v in skip.test.values) \
+        and any(isinstance(v, ast.Compare) and isinstance(v.ops[0], ast.NotIn) and src(v.left) == idxv0 and src(v.comparators[0]) == metas for v in skip.test.values)
     ctx.check(ok, "ROUTE", f"{FN}: a track is skipped iff it is in no group and not a meta track", function=FN,
               construct="track skip condition is not `in no group and not meta`", message=short(getattr(skip, "test", None), 100), file=fi.file, node=skip or track_loop)
     # current sequence selection: group member -> its own slot
@@ -189,8 +207,7 @@ def _main_check(ctx: Ctx) -> None:
     idxv = track_loop.target.elts[0].id if isinstance(track_loop.target, ast.Tuple) else None
 
     def _is_member_test(t):
-        return isinstance(t, ast.Call) and isinstance(t.func, ast.Name) and t.func.id == "any" and groups in src(t) and idxv is not None \
-            and any(isinstance(c, ast.Compare) and isinstance(c.ops[0], ast.In) and src(c.left) == idxv for c in ast.walk(t))
+        return is_member_test(t)
 
     def _is_meta_test(t):
         return isinstance(t, ast.Compare) and len(t.ops) == 1 and isinstance(t.ops[0], ast.In) and src(t.left) == idxv and src(t.comparators[0]) == metas
